@@ -172,6 +172,14 @@ def check_lab_family(ctx, case):
                 # the NotImplementedError of an abstract type whose structure was consulted
                 got = "RuntimeError" if type(e) is RuntimeError else "exc:" + type(e).__name__
             out.append([wd, acc, exp, got])
+        # a family that has no type yet: the documented RuntimeError, nothing else
+        Empty = type("EmptyFamily", (boot.AbstractPart, M), {"cutter": enz})
+        try:
+            Empty.characterize(impl.CircularRecord(impl.Seq(words[0][0]), id="c"))
+            got_e = "returned"
+        except Exception as e:  # noqa
+            got_e = "RuntimeError" if type(e) is RuntimeError else "exc:" + type(e).__name__
+        out.append([words[0][0], [], [], got_e])
         # a type declared first and given its signature afterwards (a plug-in filling in a placeholder class): once
         # complete it is a candidate like any other, whatever was characterised while it was not
         if case.get("late"):
@@ -263,7 +271,7 @@ def make_word(rng, cls, u, d):
     try:
         if issubclass(cls, boot.AbstractVector):
             return gen.gen_vector(rng, enz, o5=d, o3=u, tries=200)[0]
-        return gen.gen_module(rng, enz, u, d, tries=200)[0]
+        return gen.gen_module(rng, enz, u, d, tries=200, tlen=2 if rng.random() < 0.15 else None)[0]   # 2 nt: the shortest insert
     except RuntimeError:
         return None
 
